@@ -137,6 +137,16 @@ def build(scn):
     key = 'kIdp1' if rtype == 'logout_sp' else 'kSp'
     sig = sb.signature_template('req1', 'sha256') if scn['sig'] != 'none' else ''
     doc = request_xml(rtype, 'req1', dest, ii, sig)
+    if mut == 'schema_reqattr':
+        before = doc
+        if rtype == 'authn':
+            doc = doc.replace('</samlp:AuthnRequest>', '<samlp:Scoping><samlp:IDPList><samlp:IDPEntry Name="somewhere"/></samlp:IDPList>'
+                              '</samlp:Scoping></samlp:AuthnRequest>')
+        else:
+            doc = doc.replace('</samlp:AttributeQuery>', '<saml:Attribute NameFormat="urn:oasis:names:tc:SAML:2.0:attrname-format:uri"/>'
+                              '</samlp:AttributeQuery>')
+        if doc == before:
+            raise fw.Machinery('schema_reqattr: end tag not found in %s' % rtype)
     if mut == 'bad_enum':
         before = doc
         doc = doc.replace('</samlp:AuthnRequest>', '<samlp:RequestedAuthnContext Comparison="strongest"><saml:AuthnContextClassRef>%s'
@@ -180,8 +190,14 @@ def build(scn):
     elif mut == 'not_xml':
         doc = 'SAMLRequest is not XML at all'
     if scn['binding'] == 'soap':
+        body = doc
+        if mut == 'body_first_other':
+            body = ('<samlp:LogoutResponse xmlns:samlp="%s" ID="lr0" Version="2.0" IssueInstant="%s"><samlp:Status><samlp:StatusCode '
+                    'Value="urn:oasis:names:tc:SAML:2.0:status:Success"/></samlp:Status></samlp:LogoutResponse>' % (sb.NS_SAMLP, env.ts(now - 5))) + doc
+        elif mut == 'body_two':
+            body = doc + doc.replace('ID="req1"', 'ID="req2"', 1)
         enc = ('<soapenv:Envelope xmlns:soapenv="http://schemas.xmlsoap.org/soap/envelope/"><soapenv:Body>%s</soapenv:Body>'
-               '</soapenv:Envelope>' % doc)
+               '</soapenv:Envelope>' % body)
     elif scn['binding'] == 'post':
         enc = sb.b64(doc)
         if mut == 'garbled_base64':
